@@ -328,80 +328,93 @@ print(json.dumps({{'violates': bool(viol) or bool(problems), 'frozen': p.frozen,
     if "e" not in w:
         return None
     es = to_py_source(w["e"])
-    script = f"""
+    from contracts.native_ref import NATIVE_REF
+    script = NATIVE_REF + f"""
 import json, copy, dataclasses
 from odata_query import ast
 from odata_query.visitor import NodeVisitor, NodeTransformer
-e = {es}
-
-def preorder(n):
-    out = [n]
-    for f in dataclasses.fields(n):
-        v = getattr(n, f.name)
-        if isinstance(v, list):
-            for x in v:
-                if isinstance(x, ast._Node):
-                    out += preorder(x)
-        elif isinstance(v, ast._Node):
-            out += preorder(v)
-    return out
-
-class Tracer(NodeVisitor):
-    def __init__(self):
-        self.trace = []
-    def visit(self, node):
-        self.trace.append(node)
-        return super().visit(node)
-
-before = copy.deepcopy(e)
-problems = []
-t = Tracer()
+from odata_query.grammar import ODataLexer, ODataParser
 try:
-    res = t.visit(e)
-    if res is not None:
-        problems.append('default visitor returned ' + repr(res))
-    if [id(x) for x in t.trace] != [id(x) for x in preorder(e)]:
-        problems.append('trace != preorder: %d vs %d nodes' % (len(t.trace), len(preorder(e))))
-except Exception as ex:
-    problems.append('visitor raised ' + type(ex).__name__ + ': ' + str(ex))
-try:
-    out = NodeTransformer().visit(e)
-    if out != e:
-        problems.append('transformer without overrides changed the tree: ' + repr(out))
-except Exception as ex:
-    problems.append('transformer raised ' + type(ex).__name__ + ': ' + str(ex))
-# single-kind overrides: exactly the nodes of that kind change
-for kind in sorted({{type(x).__name__ for x in preorder(e)}}):
-    marker = ast.String('<<' + kind + '>>')
-    T = type('T', (NodeTransformer,), {{'visit_' + kind: (lambda self, node: marker)}})
-    def expect(n):
-        if type(n).__name__ == kind:
-            return marker
-        kw = {{}}
+    witness = [sanitize({es})]
+except Exception:
+    witness = []
+BATTERY = ["concat(title, 'x') eq name", "a in (b, c, 1)", "items/any(x: x/price gt 1 and contains(x/name, n))",
+           "not (a/b/c eq -d)", "f.g(p=a, q=(b, c))", "substring(concat(a, b), 1, length(c)) ne null"]
+trees = witness + [ODataParser().parse(ODataLexer().tokenize(t)) for t in BATTERY]
+all_problems = []
+for e in trees:
+  if True:
+
+    def preorder(n):
+        out = [n]
         for f in dataclasses.fields(n):
             v = getattr(n, f.name)
             if isinstance(v, list):
-                kw[f.name] = [expect(x) if isinstance(x, ast._Node) else x for x in v]
+                for x in v:
+                    if isinstance(x, ast._Node):
+                        out += preorder(x)
             elif isinstance(v, ast._Node):
-                kw[f.name] = expect(v)
-            else:
-                kw[f.name] = v
-        return type(n)(**kw)
+                out += preorder(v)
+        return out
+
+    class Tracer(NodeVisitor):
+        def __init__(self):
+            self.trace = []
+        def visit(self, node):
+            self.trace.append(node)
+            return super().visit(node)
+
+    before = copy.deepcopy(e)
+    problems = []
+    t = Tracer()
     try:
-        got = T().visit(e)
-        if got != expect(e):
-            problems.append('override of ' + kind + ' gave ' + repr(got))
+        res = t.visit(e)
+        if res is not None:
+            problems.append('default visitor returned ' + repr(res))
+        if [id(x) for x in t.trace] != [id(x) for x in preorder(e)]:
+            problems.append('trace != preorder: %d vs %d nodes' % (len(t.trace), len(preorder(e))))
     except Exception as ex:
-        problems.append('override of ' + kind + ' raised ' + type(ex).__name__ + ': ' + str(ex))
-    seen = []
-    V = type('V', (NodeVisitor,), {{'visit_' + kind: (lambda self, node: seen.append(node))}})
+        problems.append('visitor raised ' + type(ex).__name__ + ': ' + str(ex))
     try:
-        V().visit(e)
+        out = NodeTransformer().visit(e)
+        if out != e:
+            problems.append('transformer without overrides changed the tree: ' + repr(out))
     except Exception as ex:
-        problems.append('visitor with handler ' + kind + ' raised ' + type(ex).__name__)
-if e != before:
-    problems.append('input tree was mutated')
-print(json.dumps({{'violates': bool(problems), 'problems': problems[:5], 'e': repr(e)}}))
+        problems.append('transformer raised ' + type(ex).__name__ + ': ' + str(ex))
+    # single-kind overrides: exactly the nodes of that kind change
+    for kind in sorted({{type(x).__name__ for x in preorder(e)}}):
+        marker = ast.String('<<' + kind + '>>')
+        T = type('T', (NodeTransformer,), {{'visit_' + kind: (lambda self, node: marker)}})
+        def expect(n):
+            if type(n).__name__ == kind:
+                return marker
+            kw = {{}}
+            for f in dataclasses.fields(n):
+                v = getattr(n, f.name)
+                if isinstance(v, list):
+                    kw[f.name] = [expect(x) if isinstance(x, ast._Node) else x for x in v]
+                elif isinstance(v, ast._Node):
+                    kw[f.name] = expect(v)
+                else:
+                    kw[f.name] = v
+            return type(n)(**kw)
+        try:
+            got = T().visit(e)
+            if got != expect(e):
+                problems.append('override of ' + kind + ' gave ' + repr(got))
+        except Exception as ex:
+            problems.append('override of ' + kind + ' raised ' + type(ex).__name__ + ': ' + str(ex))
+        seen = []
+        V = type('V', (NodeVisitor,), {{'visit_' + kind: (lambda self, node: seen.append(node))}})
+        try:
+            V().visit(e)
+        except Exception as ex:
+            problems.append('visitor with handler ' + kind + ' raised ' + type(ex).__name__)
+    if e != before:
+        problems.append('input tree was mutated')
+
+    all_problems += [(repr(e)[:80], p) for p in problems]
+print(json.dumps({{'violates': bool(all_problems), 'problems': all_problems[:5]}}))
 """
     return {"native_script": script, "input_text": f"e={es}",
             "required": "trace == preorder(e); NodeTransformer().visit(e) == e; overrides change exactly their kind; input unchanged"}
